@@ -25,7 +25,7 @@ Oracle (written from the statement):
   ctxt tag, clock tag and rng-derived ids; no component of a loser is ever called.
 
 All monitor state is thread-local and handed back at join: the monitor adds no synchronisation
-between the racing threads apart from the start barrier (which precedes every initialisation)
+between the racing threads apart from the start gate (which precedes every initialisation)
 and the stamp counter.
 
 Unconstrained: *which* initialiser wins; whether a loser that was told `None` already sees the
@@ -38,7 +38,7 @@ use std::{
     cell::{Cell, RefCell},
     collections::{BTreeMap, BTreeSet},
     ops::ControlFlow,
-    sync::Barrier,
+    sync::atomic::{AtomicBool, AtomicUsize, Ordering},
     time::Duration,
 };
 
@@ -364,6 +364,35 @@ struct Sizes {
     post_steps: u64,
 }
 
+/// A spinning start gate: everyone who waits is released within nanoseconds of each other (a
+/// `Barrier` wakes its waiters one futex at a time, which lets the first one win unopposed).
+struct Gate {
+    ready: AtomicUsize,
+    go: AtomicBool,
+}
+
+impl Gate {
+    fn wait(&self) {
+        self.ready.fetch_add(1, Ordering::SeqCst);
+        let mut n = 0u32;
+        while !self.go.load(Ordering::Acquire) {
+            n = n.wrapping_add(1);
+            if cfg!(miri) || n % 256 == 0 {
+                std::thread::yield_now();
+            } else {
+                std::hint::spin_loop();
+            }
+        }
+    }
+
+    fn open(&self, waiters: usize) {
+        while self.ready.load(Ordering::SeqCst) < waiters {
+            std::thread::yield_now();
+        }
+        self.go.store(true, Ordering::Release);
+    }
+}
+
 fn tag_of(round: u64, i: usize) -> u64 {
     (round % 1_000_000 + 1) * 32 + i as u64
 }
@@ -408,12 +437,12 @@ fn run_round(r: &mut Report, seed: u64, round: u64, sz: &Sizes) {
     }
 
     // ---- phase 1: the race ----
-    let barrier = Barrier::new(n_init + n_obs + 1);
+    let gate = Gate { ready: AtomicUsize::new(0), go: AtomicBool::new(false) };
     let outs: Vec<ActorOut> = std::thread::scope(|s| {
         let mut handles = Vec::new();
         for o in 0..n_obs {
             let slot = &slot;
-            let barrier = &barrier;
+            let gate = &gate;
             let aseed = actor_seeds[n_init + o];
             let (spin_cap, post_steps) = (sz.spin_cap, sz.post_steps);
             handles.push(s.spawn(move || {
@@ -423,7 +452,7 @@ fn run_round(r: &mut Report, seed: u64, round: u64, sz: &Sizes) {
                 let mut post = 0;
                 let mut n = 0;
                 // released together with the initialisers so the spinning overlaps the race
-                barrier.wait();
+                gate.wait();
                 // logical bounds only: no verdict depends on how far the observer got
                 while post < post_steps && n < spin_cap {
                     if step(slot, &mut g, &mut next_id, &mut out.steps, &mut out.emissions) {
@@ -437,7 +466,7 @@ fn run_round(r: &mut Report, seed: u64, round: u64, sz: &Sizes) {
         }
         for i in 0..n_init {
             let slot = &slot;
-            let barrier = &barrier;
+            let gate = &gate;
             let aseed = actor_seeds[i];
             let tag = tag_of(round, i);
             let by_init_slot = use_init_slot[i];
@@ -453,7 +482,7 @@ fn run_round(r: &mut Report, seed: u64, round: u64, sz: &Sizes) {
                     .with_ctxt(TCtxt { tag })
                     .with_clock(TClock { tag })
                     .with_rng(TRng { tag });
-                barrier.wait();
+                gate.wait();
                 for _ in 0..spins {
                     std::hint::spin_loop();
                 }
@@ -478,7 +507,7 @@ fn run_round(r: &mut Report, seed: u64, round: u64, sz: &Sizes) {
                 out
             }));
         }
-        barrier.wait();
+        gate.open(n_init + n_obs);
         handles.into_iter().map(|h| h.join().expect("actor threads catch their own panics")).collect()
     });
 
@@ -761,7 +790,7 @@ fn main() {
         std::process::exit(r.finish());
     }
 
-    let n = args.get_u64("rounds", args.n(2_000, 120_000));
+    let n = args.get_u64("rounds", args.n(2_000, 80_000));
     let seed = args.seed;
     // rounds spawn up to 24 threads each: a few rounds in parallel keep all cores contended
     let mut a = args.clone();
